@@ -9,6 +9,7 @@ import (
 	"os"
 	"regexp"
 	"strings"
+	"sync"
 	"time"
 
 	"github.com/aml-org/amf-custom-validator/simrt"
@@ -58,6 +59,70 @@ type RunResult struct {
 	Harness     string         `json:"harness_error,omitempty"`
 	PrefixSeeds []uint64       `json:"prefix_seeds,omitempty"`
 	Tier        string         `json:"tier,omitempty"`
+}
+
+// freeRunning: tasks run as ordinary goroutines with real parallelism and no scheduler (the
+// un-simulated supplementary pass of C10's thorough tier; not seed-replayable).
+var freeRunning bool
+
+func execFree(c *Corpus, rc *refCache, sp *RunSpec) *RunResult {
+	t0 := time.Now()
+	res := &RunResult{Seed: sp.Seed, Probes: map[string]int{}, Spec: sp, Dec: &Decisions{}}
+	handles := make([]*rego.PreparedEvalQuery, sp.Slots+1)
+	fixed := instant(baseInstant)
+	simrt.NowHook = func() time.Time { return fixed }
+	defer func() { simrt.NowHook = nil }()
+	norm := func(op Op) Op { op.T = baseInstant; return op }
+	var proRes []Res
+	for _, op := range sp.Prologue {
+		proRes = append(proRes, execOp(c, norm(op), handles, func(time.Time) {}))
+	}
+	results := make([][]Res, len(sp.Tasks))
+	var wg sync.WaitGroup
+	start := make(chan struct{})
+	for ti := range sp.Tasks {
+		ti := ti
+		results[ti] = make([]Res, len(sp.Tasks[ti]))
+		wg.Add(1)
+		go func() {
+			defer wg.Done()
+			<-start
+			for oi, op := range sp.Tasks[ti] {
+				results[ti][oi] = execOp(c, norm(op), handles, func(time.Time) {})
+			}
+		}()
+	}
+	close(start)
+	wg.Wait()
+	for ti := range sp.Tasks {
+		var row []string
+		for oi, op := range sp.Tasks[ti] {
+			got := results[ti][oi]
+			row = append(row, got.key())
+			if res.Violation != nil {
+				continue
+			}
+			if (op.Kind == "vcompiled" || op.Kind == "vcompiled_cfg") && got.Err && got.ErrTxt == "no handle" {
+				continue
+			}
+			want, err := rc.get(c, norm(op))
+			if err != nil {
+				res.Harness = err.Error()
+				continue
+			}
+			if !sameOutcome(got, want) {
+				res.Violation = &Violation{Class: "result_mismatch", Task: ti, Op: oi, Kind: op.Kind,
+					Detail: fmt.Sprintf("free-running: profile=%s data=%s got{%s} want{%s} %s", c.Profiles[op.P].ID, dataID(c, op), got.key(), want.key(), firstDiff(got.Report, want.Report)),
+					Sig:    "result_mismatch:" + op.Kind}
+			}
+		}
+		res.Outcomes = append(res.Outcomes, row)
+	}
+	_ = proRes
+	res.Sig = shortHash([]byte(fmt.Sprint(sp.Seed)))
+	res.Nontrivial = len(sp.Tasks) > 1
+	res.WallMs = time.Since(t0).Milliseconds()
+	return res
 }
 
 // checkForeign is set when the instrumenter saw `go` statements in repository code.
@@ -445,6 +510,9 @@ func execRun(c *Corpus, rc *refCache, sp *RunSpec, replay *Decisions) *RunResult
 		simrt.NowHook = func() time.Time { return tt }
 		proRes = append(proRes, execOp(c, op, handles, func(time.Time) {}))
 		simrt.NowHook = nil
+	}
+	if freeRunning {
+		return execFree(c, rc, sp)
 	}
 	s := simrt.NewSched(n, sp.Seed^0x5bd1e995, sp.Pol)
 	s.CheckForeign = checkForeign
